@@ -54,6 +54,20 @@ def check_fn(fn, attach_short):
         for n in walk(tree):
             if n.get("k") == "bin" and n.get("op") == "+" and _const(n.get("r")) == 1:
                 incs.append(_strip(n.get("l")))
+    # `const int depth = mp.level;` - a local that only ever holds the depth stands for it
+    alias = {}
+    for b, ev in fn.events():
+        if ev["k"] == "decl" and "d" in (ev.get("var") or {}) and isinstance(ev.get("e"), dict):
+            alias[ev["var"]["d"]] = _strip(ev["e"])
+
+    def resolve(t):
+        t = _strip(t)
+        if isinstance(t, dict) and t.get("k") == "var" and t.get("d") in alias and "p" not in t:
+            r = alias[t["d"]]
+            if _is_depth_lvalue(r):
+                return r
+        return t
+    incs = incs + [resolve(i) for i in incs]
     guards = []
     for cb in fn.blocks.values():
         if cb.cond is None or len(cb.succ) != 2 or cb.labels is not None:
@@ -67,10 +81,10 @@ def check_fn(fn, attach_short):
                 continue
             for l, op, r in _atoms(cb.cond, oc):
                 if op in (">", ">=") and _const(r) is not None and _is_depth_lvalue(l):
-                    if any(_tree_eq(_strip(l), i) for i in incs):
+                    if any(_tree_eq(resolve(l), i) or _tree_eq(_strip(l), i) for i in incs):
                         guards.append((cb, oc, _strip(l)))
                 if op in ("<", "<=") and _const(l) is not None and _is_depth_lvalue(r):
-                    if any(_tree_eq(_strip(r), i) for i in incs):
+                    if any(_tree_eq(resolve(r), i) or _tree_eq(_strip(r), i) for i in incs):
                         guards.append((cb, oc, _strip(r)))
     for n, b in attach:
         ok = False
